@@ -149,6 +149,10 @@ class AsmInterp(Interp):
                     return True
                 if a.hi < recv.lo or a.lo > hi:
                     return False
+            if isinstance(a, int) and not isinstance(a, bool) and (recv.lo is None or isinstance(recv.lo, int)) and (recv.hi is None or isinstance(recv.hi, int)):
+                lo_ok = recv.lo is None or a >= recv.lo
+                hi_ok = recv.hi is None or (a <= recv.hi if recv.closed else a < recv.hi)
+                return lo_ok and hi_ok
             raise Unanalysable("range containment not decided by the immediate class")
         if isinstance(recv, CodeV):
             if name == "push":
